@@ -69,7 +69,7 @@ const NKEYS: usize = 16;
 
 fn val(n: u64, big: bool) -> Vec<u8> {
     let mut v = format!("{:08}", n).into_bytes();
-    v.resize(if big { 2500 } else { 300 }, b'.');
+    v.resize(if big { 70_000 } else { 300 }, b'.');
     v
 }
 
